@@ -23,7 +23,7 @@ View == <<cfg, cnt, fails, bad>>
 \* cfg.tl: which trusted-hosts list is set ("def" | "oth")
 Init == /\ cfg \in [evalex : BOOLEAN, pin_on : BOOLEAN, pin : {"A"}, tl : {"def"}]
         /\ cnt = 0 /\ fails = 0 /\ bad = "ok"
-        /\ act = [q |-> "init"]
+        /\ act = [k |-> "init"]
 
 Trusts(q) == IF q.hv = "T" THEN {TRUE} ELSE IF q.hv = "U" THEN {FALSE} ELSE BOOLEAN
 
@@ -40,7 +40,7 @@ Request == \E r \in Reqs :
           /\ cnt' = s.cnt
           /\ fails' = ContractNext(cfg, fails, q, s.o)
           /\ bad' = Clause(cfg, fails, q, s.o)
-          /\ act' = [q |-> q, o |-> s.o]
+          /\ act' = [k |-> "req", q |-> q, o |-> s.o]
           /\ UNCHANGED cfg
 
 \* the public attributes of a live DebuggedApplication: app.pin = B / A, app.pin = None, app.evalex = b,
@@ -51,7 +51,7 @@ Configure == /\ ConfigOn
                 \/ \E b \in BOOLEAN : cfg' = [cfg EXCEPT !.evalex = b]                       \* SetEvalex
                 \/ \E l \in {"def", "oth"} : cfg' = [cfg EXCEPT !.tl = l]                    \* SetTrustedHosts
              /\ cfg' # cfg
-             /\ act' = [q |-> "config"]
+             /\ act' = [k |-> "config"]
              /\ UNCHANGED <<cnt, fails, bad>>
 
 Next == Request \/ Configure
@@ -60,13 +60,15 @@ Next == Request \/ Configure
 ContractHolds == bad = "ok"
 \* the lock-out, stated on its own: in a locked state nothing but a valid cookie authenticates
 LockoutSticks == bad # "LockoutSticks"
+\* the eval gate, stated on its own
+EvalGate == bad # "EvalOnlyIfAll"
 \* the code's counter and the contract's agree on whether the debugger is locked
 CounterTracks == (cnt > 10) = Locked(fails)
 TypeOK == cnt \in 0..255 /\ fails \in 0..(LockAfter + 1)
 
 \* the export only needs the neighbourhood of the lock-out threshold
 ExportBound == cnt <= 13
-Export == IF cnt \in ExportCnts /\ act'.q # "config" /\ act'.q.hv # "E"
+Export == IF cnt \in ExportCnts /\ act'.k = "req" /\ act'.q.hv # "E"
           THEN PrintT(ToJson([cfg |-> cfg, cnt |-> cnt, fails |-> fails, q |-> act'.q, o |-> act'.o, cnt2 |-> cnt']))
           ELSE TRUE
 =============================================================================
